@@ -98,8 +98,9 @@ func main() {
 		var dj drawJSON
 		if !r.Dead && len(r.Steps) > 0 {
 			nDraw++
-			if nDraw%3 == 0 {
-				last := r.Steps[len(r.Steps)-1].Obs
+			last := r.Steps[len(r.Steps)-1].Obs
+			// (a window that does not fit the host screen would be clipped)
+			if nDraw%3 == 0 && last.Cols <= hostCols-winCol && last.Rows <= hostRows-winRow {
 				w, h := last.Cols, last.Rows
 				if nDraw%9 == 0 {
 					w, h = 1+cfg.Rand.Intn(12), 1+cfg.Rand.Intn(8)
@@ -269,6 +270,18 @@ func main() {
 		r, tags := survivorHistory(cfg.Rand)
 		add(r, "resize-survivor", tags...)
 	}
-	cfg.Write("C05", "histories from New(): first resize to a size from 1x1 upward, then chunks of grammar-generated child output (printable narrow/wide/zero-width text, C0, ESC, CSI with parameters omitted/0/1/size-1/size/size+1/huge/overflowing, SGR, OSC/APC/DCS strings) or raw fuzzed bytes, plus directed histories: SGR lists cut at every length around the extended colours 38/48/58 (selector omitted/0/2/5/unknown, semicolon, colon and mixed syntax, at the start and at the tail of the list) and OSC 8 hyperlinks whose targets and parameters are drawn from an alphabet containing \";\", \":\" and \"=\", and resize-survivor histories (a cursor position at 0 / new size-2..new size+1 / old size-2..old size-1 saved into the primary or the alternate screen's slot by ESC 7, CSI s or CSI ?1049h, optionally with a tab stop, scroll region, origin / insert / autowrap mode or pen, optionally leaving the screen, then one or two resizes that shrink rows, columns or both, go to 1x1, grow or keep the size, then ESC 8, CSI u, CSI ?1049l or a tab on the same or the other screen, at once followed by operations that index the grid at the cursor: erase, insert / delete line and character, repeat, IRM print, wide print, index / reverse index, tabs), parsed by the real ansi.Parser and fed one sequence at a time through the unmodified update path, with resizes between chunks and a random event-drain schedule; after every step the observation (outcome, size, cursor, deferred-wrap flag, margins, events pending, length of every row of both grids) and every 9th step plus the last one the complete state (both grids, pen, modes, tab stops, charsets, saved cursors); non-trivial = at least three different control functions in the history",
+	// wide glyph neighbourhood (wide.go)
+	wideDirected(cfg.Rand, cfg.Thorough(), func(r *termhx.Runner, tags []string) {
+		add(r, "wide-neighbourhood", tags...)
+	})
+	nWide := 80
+	if cfg.Thorough() {
+		nWide = 1500
+	}
+	for i := 0; i < nWide; i++ {
+		r, tags := wideRandom(cfg.Rand)
+		add(r, "wide-neighbourhood", tags...)
+	}
+	cfg.Write("C05", "histories from New(): first resize to a size from 1x1 upward, then chunks of grammar-generated child output (printable narrow/wide/zero-width text, C0, ESC, CSI with parameters omitted/0/1/size-1/size/size+1/huge/overflowing, SGR, OSC/APC/DCS strings) or raw fuzzed bytes, plus directed histories: SGR lists cut at every length around the extended colours 38/48/58 (selector omitted/0/2/5/unknown, semicolon, colon and mixed syntax, at the start and at the tail of the list) and OSC 8 hyperlinks whose targets and parameters are drawn from an alphabet containing \";\", \":\" and \"=\", and resize-survivor histories (a cursor position at 0 / new size-2..new size+1 / old size-2..old size-1 saved into the primary or the alternate screen's slot by ESC 7, CSI s or CSI ?1049h, optionally with a tab stop, scroll region, origin / insert / autowrap mode or pen, optionally leaving the screen, then one or two resizes that shrink rows, columns or both, go to 1x1, grow or keep the size, then ESC 8, CSI u, CSI ?1049l or a tab on the same or the other screen, at once followed by operations that index the grid at the cursor: erase, insert / delete line and character, repeat, IRM print, wide print, index / reverse index, tabs), and wide-glyph-neighbourhood histories (on widths 2..6 and 80 a wide glyph with its head at every column including the last two, where it wraps or with DECAWM off stays without a spacer; the spacer kept or destroyed by DCH / ICH / ECH / EL / REP / a narrow or wide print at the spacer or at the head; the cursor brought onto the cell before the head, the head, the spacer or the cell after it by CHA, HPA, CUP, BS, CUB, CR+CUF, CR+HPR or CUF huge + CHA; then REP, ICH, DCH, ECH with counts omitted / 0 / 1 / 2 / width-col-1 / width-col / width-col+1 / width / width+1 / huge, narrow and wide prints with IRM on and off, tabs, CUF / CUB / BS, EL / ED / IL / DL, then a print or REP on what is left; plus random wide-heavy text with horizontal moves, these operations and resizes by a few columns), parsed by the real ansi.Parser and fed one sequence at a time through the unmodified update path, with resizes between chunks and a random event-drain schedule; after every step the observation (outcome, size, cursor, deferred-wrap flag, margins, events pending, length of every row of both grids) and every 9th step plus the last one the complete state (both grids, pen, modes, tab stops, charsets, saved cursors); non-trivial = at least three different control functions in the history",
 		[]*hx.Stream{s, ds}, map[string]interface{}{"outcomes": outcomes}, direct)
 }
